@@ -106,7 +106,7 @@ def _family_operands(rng, family, O):
 
     a, b, lad, s, c1, c2, c3 = O["a"], O["b"], O["l"], O["s"], O["c1"], O["c2"], O["c3"]
     if family == "fermion_pairs":
-        ops = [c1, c2] + ([c3] if rng.random() < 0.5 else []) + ([a] if rng.random() < 0.3 else [])
+        ops = [c1, c2] + ([c3] if rng.random() < 0.5 else []) + ([a] if rng.random() < 0.5 else [])
         f = [o for o in ops if isinstance(o, FermionOp)]
         i, j = (int(x) for x in rng.choice(len(f), size=2, replace=False))
         pair_ann = f[i] * f[j]
@@ -114,6 +114,9 @@ def _family_operands(rng, family, O):
         e1 = _rand_expr(rng, ops)
         e2 = (pair_ann * (1 + Nop(f[i])) if rng.random() < 0.5 else pair_ann + sympy.Rational(1, 2) * pair_cre, 2)
         e3 = (pair_cre if rng.random() < 0.5 else Dagger(f[j]) * f[i] * f[j], 3)
+        if a in ops and rng.random() < 0.6:
+            # two anticommuting creators next to a coefficient that SymPy regards as a commuting scalar
+            e1 = (sympy.Abs(Nop(a) - int(rng.integers(0, 3))) * pair_cre * (Dagger(a) if rng.random() < 0.5 else 1), 2)
         return ops, [e1, e2, e3]
     if family == "surplus":
         o = a if rng.random() < 0.6 else lad
